@@ -203,6 +203,17 @@ def check_squash(repo: Repo, where: str, alphabet: list[str], max_len: int, trip
         one(f"({da} | {db}) | {dc}", cm.new("Choice", inner, ec), ordered([fa, fb, fc]))
         if list(inner.choices) != before:
             bad.append(("squash_choice modifies a node of the tree it was given", f"({da} | {db}) | {dc}: the already squashed first alternative was extended in place"))
+    # an alternative that is a rule object whose body is a choice (a built-in such as NEWLINE that has not been inlined:
+    # the pass looks through it), first and last
+    if "BuiltInRule" in cm.classes:
+        silent = repo.mod("src/pest/grammar/rule.py").constants().get("SILENT", 0)
+        for (da, ea, fa), (db, eb, fb), (dc, ec, fc) in itertools.product(few, few, few):
+            try:
+                rule = cm.new("BuiltInRule", "NL", cm.new("Choice", ea, eb), silent)
+            except ModelRaise:
+                continue
+            one(f"NL[{da} | {db}] | {dc}", cm.new("Choice", rule, ec), ordered([fa, fb, fc]))
+            one(f"{dc} | NL[{da} | {db}]", cm.new("Choice", ec, rule), ordered([fc, fa, fb]))
     if triples:
         small = [x for x in lv if len(x[0]) <= 5][:: max(1, len(lv) // 14)]
         for (da, ea, fa), (db, eb, fb), (dc, ec, fc) in itertools.product(small, repeat=3):
